@@ -185,18 +185,19 @@ def process_nodes_recursive(
                                     var_match = re.search(
                                         r"var\((--[\w-]+)\)", raw_text_color
                                     )
-                                    if var_match:
+                                    if var_match and var_match.group(1) in variables:
                                         var_name = var_match.group(1)
-                                        if var_name in variables:
-                                            # Update the variable definition
-                                            var_def = variables[var_name]
-                                            update_decl_value(
-                                                var_def["decl"], tuned_rgb
-                                            )
-                                            # Update our local map so future usages see the new value
-                                            var_def["value"] = tuned_rgb
+                                        # Update the variable definition
+                                        var_def = variables[var_name]
+                                        update_decl_value(var_def["decl"], tuned_rgb)
+                                        # Update our local map so future usages see the new value
+                                        var_def["value"] = tuned_rgb
                                     else:
-                                        pass  # Could not extract var name
+                                        # var() with a fallback, or a property that is not defined
+                                        # in :root/html: there is no definition to rewrite, so fix
+                                        # the declaration itself
+                                        update_decl_value(color_decl, tuned_rgb)
+                                        modified = True
                                 else:
                                     update_decl_value(color_decl, tuned_rgb)
                                     modified = True
